@@ -267,6 +267,14 @@ static void ProcessFile(char const* FileName, LongWord Offset) {
                 MaxAdr = 0xffffu;
             }
 
+            /* the Intel formats count bytes, not address units */
+
+            if (((ActFormat == eHexFormatIntel) || (ActFormat == eHexFormatIntel16)
+                 || (ActFormat == eHexFormatIntel32))
+                && (MultiMode < 2) && (Gran > 1)) {
+                MaxAdr /= Gran;
+            }
+
             if (!Read4(SrcFile, &InpStart)) {
                 ChkIO(FileName);
             }
@@ -296,12 +304,6 @@ static void ProcessFile(char const* FileName, LongWord Offset) {
                 }
             }
 
-            if (doit && (ErgStop > MaxAdr)) {
-                errno = 0;
-                fprintf(stderr, " %s\n", getmessage(Num_ErrMsgAdrOverflow));
-                ChkIO(OutName);
-            }
-
             if (doit) {
                 /* an Anfang interessierender Daten */
 
@@ -325,6 +327,15 @@ static void ProcessFile(char const* FileName, LongWord Offset) {
                 /* Auf Zieladressbereich verschieben */
 
                 ErgStart += Relocate;
+
+                /* overflow check and S-record type go by the addresses written */
+
+                ErgStop = ErgStart + (ErgLen / Gran) - 1;
+                if (ErgStop > MaxAdr) {
+                    errno = 0;
+                    fprintf(stderr, " %s\n", getmessage(Num_ErrMsgAdrOverflow));
+                    ChkIO(OutName);
+                }
 
                 /* Kopf einer Datenzeilengruppe */
 
